@@ -96,6 +96,16 @@ func u64of(b []byte) uint64 {
 
 // ---- scalars ------------------------------------------------------------------------------
 
+// Defined numeric types: the constraint codec.BasicType admits them (~uint32 ...), and an
+// application's `type Qty uint32` must be written exactly like a uint32 (element kinds "du16" ...).
+type (
+	dU16 uint16
+	dI32 int32
+	dU32 uint32
+	dI64 int64
+	dF64 float64
+)
+
 func writeScalar(buf *bytes.Buffer, le bool, ek string, v []byte) error {
 	u := u64of(v)
 	w := func(x any) error {
@@ -150,6 +160,31 @@ func writeScalar(buf *bytes.Buffer, le bool, ek string, v []byte) error {
 				return codec.WriteBasicTypeLE(buf, t)
 			}
 			return codec.WriteBasicType(buf, t)
+		case dU16:
+			if le {
+				return codec.WriteBasicTypeLE(buf, t)
+			}
+			return codec.WriteBasicType(buf, t)
+		case dI32:
+			if le {
+				return codec.WriteBasicTypeLE(buf, t)
+			}
+			return codec.WriteBasicType(buf, t)
+		case dU32:
+			if le {
+				return codec.WriteBasicTypeLE(buf, t)
+			}
+			return codec.WriteBasicType(buf, t)
+		case dI64:
+			if le {
+				return codec.WriteBasicTypeLE(buf, t)
+			}
+			return codec.WriteBasicType(buf, t)
+		case dF64:
+			if le {
+				return codec.WriteBasicTypeLE(buf, t)
+			}
+			return codec.WriteBasicType(buf, t)
 		}
 		return fmt.Errorf("bad scalar")
 	}
@@ -178,6 +213,16 @@ func scalarOf(ek string, u uint64) any {
 		return math.Float32frombits(uint32(u))
 	case "f64":
 		return math.Float64frombits(u)
+	case "du16":
+		return dU16(u)
+	case "di32":
+		return dI32(u)
+	case "du32":
+		return dU32(u)
+	case "di64":
+		return dI64(u)
+	case "df64":
+		return dF64(math.Float64frombits(u))
 	}
 	panic("unknown element kind " + ek)
 }
@@ -204,6 +249,16 @@ func readScalar(buf *bytes.Buffer, le bool, ek string) (any, error) {
 		return rs[float32](buf, le)
 	case "f64":
 		return rs[float64](buf, le)
+	case "du16":
+		return rs[dU16](buf, le)
+	case "di32":
+		return rs[dI32](buf, le)
+	case "du32":
+		return rs[dU32](buf, le)
+	case "di64":
+		return rs[dI64](buf, le)
+	case "df64":
+		return rs[dF64](buf, le)
 	}
 	return nil, fmt.Errorf("unknown element kind %s", ek)
 }
@@ -293,6 +348,16 @@ func mkPrefixOps[T constraints.Unsigned]() prefixOps {
 				return wl[T, float32](buf, le, ek, vals)
 			case "f64":
 				return wl[T, float64](buf, le, ek, vals)
+			case "du16":
+				return wl[T, dU16](buf, le, ek, vals)
+			case "di32":
+				return wl[T, dI32](buf, le, ek, vals)
+			case "du32":
+				return wl[T, dU32](buf, le, ek, vals)
+			case "di64":
+				return wl[T, dI64](buf, le, ek, vals)
+			case "df64":
+				return wl[T, dF64](buf, le, ek, vals)
 			}
 			return fmt.Errorf("unknown element kind %s", ek)
 		},
@@ -318,6 +383,16 @@ func mkPrefixOps[T constraints.Unsigned]() prefixOps {
 				return rl[T, float32](buf, le)
 			case "f64":
 				return rl[T, float64](buf, le)
+			case "du16":
+				return rl[T, dU16](buf, le)
+			case "di32":
+				return rl[T, dI32](buf, le)
+			case "du32":
+				return rl[T, dU32](buf, le)
+			case "di64":
+				return rl[T, dI64](buf, le)
+			case "df64":
+				return rl[T, dF64](buf, le)
 			}
 			return nil, fmt.Errorf("unknown element kind %s", ek)
 		},
